@@ -48,6 +48,7 @@ extern struct espconn *sdk_last_conn; /* last conn passed to *_connect       */
 extern struct espconn *sdk_listen_conn;
 extern int sdk_conn_open;              /* a connect was requested and not yet disconnected */
 extern int sdk_disconnect_calls_cb;   /* espconn_disconnect invokes discon cb */
+extern void (*sdk_sent_hook)(const uint8_t *p, int len, int result);
 extern int sdk_log_sent_bytes;        /* 1: SENT lines carry hex payload      */
 extern dns_found_callback sdk_dns_cb;
 extern void *sdk_dns_arg;
